@@ -16,11 +16,16 @@ class C18(Prop):
                 Suite("zcq_atomic", zcqgen.HEADER, [F5] + [zcqgen.gen_case(rng, "atomic") for _ in range(n)]),
                 Suite("zcq_fullsync", zcqgen.HEADER, [zcqgen.gen_case(rng, "fullsync") for _ in range(n)]),
                 Suite("stack_parking_lot_free", "", [stackgen.gen_case(rng, "parking_lot", lockstep=False) for _ in range(n)], compare=False),
-                Suite("stack_atomic_free", "", [stackgen.gen_case(rng, "atomic_free", lockstep=False) for _ in range(n)], compare=False)]
+                Suite("stack_atomic_free", "", [stackgen.gen_case(rng, "atomic_free", lockstep=False) for _ in range(n)], compare=False),
+                # small, frequently full stacks hammered by 4-8 free-running threads: conservation of the pushed elements (oracle only)
+                Suite("stack_stress", "", [stackgen.mk_stress(impl, rng.choice([2, 2, 4]), rng.randint(4, 8), 3000, rng.randint(1, 10**6))
+                                            for impl in ("atomic_stress", "parking_lot_stress") for _ in range(max(8, n // 15))], compare=False)]
     def oracle(self, case, recs):
+        if case.meta.get("profile") == "stress": return stackgen.oracle_stress(case, recs)
         if "impl" in case.meta and case.line.startswith("zcq"): return zcqgen.oracle(case, recs)
         return stackgen.oracle(case, recs)
     def nontrivial(self, case, recs):
+        if case.meta.get("profile") == "stress": return True
         if case.line.startswith("zcq"): return zcqgen.nontrivial(case, recs)
         return stackgen.nontrivial(case, recs)
     def parse_replay(self, text):
